@@ -27,10 +27,10 @@ for pid in sorted(registry.PROPERTIES):
     for r, frac in (("R-RESULT-USED", 0.6), ("R-XFER-SITE", 0.6), ("R-TAINT-ARITH", 0.5)):
         if r in per:
             per[r] = {c: int(n * frac) for c, n in per[r].items()}
-    # sites of these inventories disappear when code gets safer (an index loop replaced by an iterator): only require that the rule still sees something
+    # sites of these inventories disappear when code gets safer (an index loop replaced by an iterator, down to none at all): no floor on /repo;
+    # the rules are kept alive by their controls (bad_index_*/bad_alloc_* in /verif/controls must be reported on every run)
     for r in ("R-TAINT-INDEX", "R-TAINT-ALLOC"):
-        if r in per:
-            per[r] = {c: 1 for c, n in per[r].items() if n >= 1}
+        per.pop(r, None)
     # every other rule: at least half of the sites confirmed today (refactors merge and split sites; a rule that loses its anchor reports
     # "anchor not found" by itself, the floor only guards against a rule silently matching almost nothing)
     for r in per:
